@@ -68,7 +68,36 @@ func c28Gen(r *rand.Rand, n int, tier string) []c28In {
 		}
 		out = append(out, in)
 	}
+	// coinciding values: every way two or more of the four credential fields can be equal (a device-code flow
+	// that reuses the primary registration, a public client, one secret shared...) — equal fields must still be
+	// advertised and recovered one by one
+	vals := []string{"", "web-app", "sh4red"}
+	for _, a := range vals {
+		for _, b := range vals {
+			for _, c := range vals {
+				for _, d := range vals {
+					if a == c || b == d || a == b || c == d {
+						out = append(out, c28In{URL: "https://example.com/.well-known/oauth-protected-resource/vgi", CID: a, CSec: b, DCID: c, DCSec: d, Flag: len(out)%2 == 0})
+					}
+				}
+			}
+		}
+	}
 	for len(out) < n {
+		if r.Intn(8) == 0 { // random coincidences
+			id, sec := c28ID(r), c28ID(r)
+			in := c28In{URL: c28URL(r), CID: id, CSec: sec, DCID: id, DCSec: sec, Flag: r.Intn(2) == 0}
+			switch r.Intn(4) {
+			case 0:
+				in.DCSec = c28ID(r)
+			case 1:
+				in.DCID = c28ID(r)
+			case 2:
+				in.CSec, in.DCSec = "", ""
+			}
+			out = append(out, in)
+			continue
+		}
 		if r.Intn(5) == 0 {
 			// malformed / foreign header stream
 			frags := []string{"Bearer ", "client_id=\"", "device_code_client_id=\"", "\"", ", ", "x", "realm=\"a b\"",
